@@ -77,13 +77,27 @@ def compile_probe(deps, rlibs, path, outdir, config=DEV):
     return cmd
 
 
-def run_probes(ctx, kind, quick, configs=(DEV,), binary=None, tag=""):
+def run_probes(ctx, kind, quick, configs=(DEV,), binary=None, tag="", only_if_differs_from=None):
+    """Emits the probes with the given generator build and compiles them. With
+    `only_if_differs_from` (directory of another emission of the same probes), only the probes
+    whose text differs from their twin there are compiled."""
     binary = binary or common.cargo_build("layoutmon", "fastdebug")
     d = os.path.join(common.WORK, "probes-%s-%s-%d%s" % (kind, ctx.tier, ctx.seed, tag))
     rc, out, err = common.sh([binary, "emit-probes", "--kind", kind, "--quick", "1" if quick else "0", "--seed", str(ctx.seed), "--out-dir", d], timeout=900)
     if rc != 0:
         raise Inconclusive("probe emitter failed: %s" % (err or "")[-500:])
     manifest = json.load(open(os.path.join(d, "manifest.json")))
+    if only_if_differs_from:
+        def text(dd, f):
+            try:
+                return open(os.path.join(dd, f)).read()
+            except OSError:
+                return None
+        total = len(manifest)
+        manifest = [m for m in manifest if text(d, m["file"]) != text(only_if_differs_from, m["file"])]
+        ctx.count("probes_with_identical_text_from_the%s_generator" % tag.replace("-", "_"), total - len(manifest))
+        if not manifest:
+            return d, manifest, {}
     deps, rlibs = probe_deps()
     outdir = os.path.join(d, "out")
     os.makedirs(outdir, exist_ok=True)
@@ -106,6 +120,11 @@ def run_c11(ctx):
     c11_verdicts(ctx, d, manifest, results, "")
     ctx.subruns.append({"engine": "rustc --emit=metadata on generate() output", "probes": len(manifest), "dir": d,
                         "compiler_configurations": ["dev (debug assertions on)", "release (" + " ".join(RELEASE[1]) + ")"]})
+    # the same probes from a release-built generator: those whose text differs are judged too
+    d3, manifest3, results3 = run_probes(ctx, "c11", ctx.quick, configs=(DEV, RELEASE), binary=common.cargo_build("layoutmon", "release"),
+                                         tag="-release-built", only_if_differs_from=d)
+    if manifest3:
+        c11_verdicts(ctx, d3, manifest3, results3, "generator built without debug assertions")
     # the same probes from a generator built with every cargo feature of truc switched on
     allf, feats = common.cargo_build_all_features("layoutmon", "fastdebug")
     if allf:
